@@ -90,7 +90,7 @@ def cases(draw, tier="quick"):
         P["kills"] = P["close_after_kills"]
         P["w_kill"] = 6
         P["kill_notify"] = draw(st.sampled_from(["leader", "leader", "follower", "both", "tape"]))
-        P["close_in_state"][0] = draw(st.sampled_from(["L", "F", "F"]))      # by role, whichever side gets it
+        P["close_in_state"][0] = draw(st.sampled_from(["L", "L", "F"]))      # by role, whichever side gets it
         P["silent"] = None
         if P["peer"] != "dilating":
             P["peer"] = "dilating"
